@@ -408,6 +408,13 @@ IDIOMS = [
     "Where(Select(ds, lambda {x}: {x}.jets), lambda {x2}: Count(Where({x2}, lambda {x2}: Count(Where([{x2}.pt], lambda {x2}: {x2} > 1)) + {x2}.eta > 0)) > 0)",
     "SelectMany(Select(ds, lambda {x}: {x}.jets), lambda {x2}: Select({x2}, lambda {x2}: (Count(Select([{x2}.eta, 1], lambda {x2}: {x2} * 2)), {x2}.pt, {x2}.eta)))",
     "Select(Select(ds, lambda {x}: ({x}.jets, {x}.x)), lambda {x}: Select({x}[0], lambda {x}: Count(Where([{x}.pt, 2], lambda {x}: {x} > 1)) + {x}.eta))",
+    # dict displays with a repeated key (the last one counts), with keys that are equal but not
+    # identical, and a projection guarded by a membership test
+    "Select(ds, lambda {x}: {{'a': {x}.x, 'a': {x}.w}}['a'])",
+    "Select(ds, lambda {x}: (lambda {s}: {s}.a + {s}['a'])({{'a': {x}.x, 'b': 1, 'a': {x}.w}}))",
+    "Select(ds, lambda {x}: {{1: {x}.x, True: {x}.w}}[1])",
+    "Select(ds, lambda {x}: (lambda {s}: {s}['b'] if 'b' in {s} else 0)({{'a': {x}.x}}))",
+    "Select(ds, lambda {x}: Select({x}.jets, lambda {x2}: (lambda {s}: {s}['q'] if 'q' in {s} else {s}['p'])({{'p': {x2}.pt}})))",
 ]
 
 
